@@ -105,6 +105,12 @@ def history_cases():
         for mode in ("source", "api"):
             cases.append({"mode": mode, "commands": [cyc[i] for i in order], "actions": ["run", "result:A", "run", "result:T"],
                           "meta": {"n": 4, "edges": [], "cyclic": True, "style": "rejection-history", "history": "rejected-then-reused"}})
+    # a program that has run is extended through the interface and run again: the new commands execute (once), the old ones do not execute again
+    base = [{"name": "L0", "cls": "Leaf", "args": {}}, {"name": "N1", "cls": "Node", "args": {"A": ref("L0")}}]
+    extra = [{"name": "N8", "cls": "Node", "args": {"A": ref("N1"), "B": ref("L0")}}, {"name": "L9", "cls": "Leaf", "args": {}}]
+    for mode in ("source", "api"):
+        cases.append({"mode": mode, "commands": base, "actions": ["run", "add:" + json.dumps(extra[0]), "add:" + json.dumps(extra[1]), "run", "result:N8", "run"],
+                      "meta": {"n": 4, "edges": [], "cyclic": False, "style": "extension-history", "history": "run-extend-run"}})
     return cases
 
 
@@ -112,6 +118,21 @@ def judge_history(case, out):
     bad = []
     steps = out["steps"]
     names = [c["name"] for c in case["commands"]]
+    if case["meta"]["history"] == "run-extend-run":
+        if any(s["outcome"] != "return" for s in steps):
+            s = [s for s in steps if s["outcome"] != "return"][0]
+            return [("raises_only", "step %s of run / extend / run ended with %s: %s" % (s["action"][:12], s.get("exc_class"), s.get("msg", "")[:100]))]
+        s3, s5 = steps[3], steps[5]
+        for n in ("N8", "L9"):
+            if not s3["finished"].get(n):
+                bad.append(("all-finished", "run() returned with the command %s added after the first run not executed" % n))
+        for s in (s3, s5):
+            for n in ("L0", "N1", "N8", "L9"):
+                if s["executions"].count(n) > 1:
+                    bad.append(("once", "%s executed %d times over run, extend, run" % (n, s["executions"].count(n))))
+        if not bad and sorted(s5["executions"]) != ["L0", "L9", "N1", "N8"]:
+            bad.append(("once", "executions over the whole history: %s" % s5["executions"]))
+        return bad
     if case["meta"]["history"] == "fail-then-retry":
         s0, s1, s2, s3, s4, s5 = steps
         if s0["outcome"] != "raise" or not s0.get("is_mpilot"):
